@@ -25,7 +25,7 @@ static void* body(void* a) {
     prog_t* p = (prog_t*)a;
     for (int k = 0; k < p->n; k++) {
         op_t o = p->op[k];
-        mc_yield();
+        if (k > 0) mc_yield();          /* scheduling point before each operation (thread start is one already) */
         mc_obs("i %d %c%u", k, o.kind, o.arg);
         switch (o.kind) {
         case 'g': { U32 r = m_grow(p->inst, o.arg); mc_obs("r %d g%u %u", k, o.arg, r); break; }
